@@ -16,6 +16,12 @@
    universe exactly, that the harness wrote the derived import lines and twins, and judges every record: variant accepted,
    prints and terminal status equal the specification's, every file of the load sequence read exactly once and no other
    file read, every twin rejected (and not for a syntax error). One REJECT line per non-conforming record.
+3b. The configurations of the disk universe (SyltModules: a mutable global or an initialiser with an effect, and a file
+   named by a rooted and by a relative path, or a diamond, or the main file imported back) are also written to disk and
+   compiled in child processes, once per spelling of the main file (bare name from inside the project directory,
+   ./main.sy, a path from the parent directory, a path with .., an absolute path), with sylt's own file reader behind a
+   counter that counts per FILE (canonical path); Trace_Modules (UNIVERSE=disk) asserts that every configuration occurs
+   under all spellings, spelled as the specification says, and judges each record like the in-memory ones.
 4. Negative controls: corrupted observations (print dropped, status flipped, a file read twice, an unimported file read,
    a twin accepted, the variant rejected) and a stub implementation in which dropped imports stay visible must all be
    rejected by TLC.
@@ -85,6 +91,9 @@ def validate(wd, name, trace, universe, nv, seed, nrec, model):
 
 
 def signature(case, why):
+    if "spelling" in case:
+        return "C12|%s|main-file-spelling=%s|prog=%s|mixed=%d|mainback=%d|diamond=%d" % (
+            why, case["spelling"], case["prog"], case["mixed"], case["mainback"], case["diamond"])
     if why.startswith("twin-"):
         kind = why.split(":", 1)[1]
         tw = [t for t in case["twins"] if t["kind"] == kind][0]
@@ -95,6 +104,10 @@ def signature(case, why):
 
 
 def describe(case, full, why):
+    if "spelling" in case:
+        return "%s when the main file is given as %s from %s (program %s, placement %d, variant %d): compile=%s %s prints=%s reads=%s asked=%s" % (
+            why, full["arg"], full["cwd"], case["prog"], case["m"], case["v"], full["class"], full["error"][:100], full["prints"],
+            {r["path"]: r["n"] for r in full["reads"] if r["n"] != 1 or r["path"] not in case["load"]}, full.get("asked"))
     if why.startswith("twin-"):
         kind = why.split(":", 1)[1]
         tw = [t for t in full["twins"] if t["kind"] == kind][0]
@@ -106,6 +119,7 @@ def describe(case, full, why):
 
 def replay_obj(case, full, prog):
     return {"tree": case["tree"], "p": case["p"], "m": case["m"], "v": case["v"], "program": case["prog"],
+            "spelling": full.get("spelling"), "cwd": full.get("cwd"), "arg": full.get("arg"), "asked": full.get("asked"),
             "expected": {"prints": prog["prints"], "status": prog["status"], "load": case["load"]},
             "files": full["files"], "observed": {k: full[k] for k in ("class", "error", "prints", "status", "reads")},
             "twins": full["twins"], "case": case}
@@ -168,6 +182,61 @@ def stub_control(wd, progs, cases, rejects, nv, seed, model):
     if not sub or len(ok) != len(sub):
         vlib.tool_error("negative control accepted: stub with visible dropped imports: %d of %d cases rejected" % (len(ok), len(sub)))
     return len(sub)
+
+
+def disk_phase(wd, progs, cases, nv, seed, tier, verdicts):
+    """3b: the disk universe under every spelling of the main file, plus a corruption control."""
+    dsel = [c for c in cases if c["disk"]]
+    cap = 400 if tier == "quick" else 2400
+    dsel = dsel[::max(1, -(-len(dsel) // cap))]
+    if len(dsel) < 100:
+        vlib.tool_error("vacuity: only %d configurations in the disk universe" % len(dsel))
+    pf, cf = os.path.join(wd, "disk-progs.ndjson"), os.path.join(wd, "disk-cases.ndjson")
+    tf, ff = os.path.join(wd, "disk-trace.ndjson"), os.path.join(wd, "disk-full.ndjson")
+    vlib.write_ndjson(pf, progs)
+    vlib.write_ndjson(cf, dsel)
+    vlib.harness("c12", ["disk", pf, cf, tf, ff, os.path.join(wd, "disk")])
+    recs, fulls = vlib.read_ndjson(tf), vlib.read_ndjson(ff)
+    nsp = len(progs[0]["spellings"])
+    if len(recs) != nsp * len(dsel) or nsp < 5:
+        vlib.tool_error("disk run recorded %d records for %d configurations x %d spellings" % (len(recs), len(dsel), nsp))
+    v, rejects = validate(wd, "disk", tf, "disk", nv, seed, len(recs), "A")
+    dcases = [dict(dsel[i // nsp], spelling=recs[i]["spelling"]) for i in range(len(recs))]
+    judge(dcases, fulls, progs, rejects, verdicts)
+    cnt = {}
+    for i, c in enumerate(dcases):
+        if (i + 1) not in rejects:
+            for key in ["spelling:%s/prog:%s" % (c["spelling"], c["prog"])] + [k for k in ("mixed", "mainback", "diamond") if c[k]]:
+                cnt["disk-" + key] = cnt.get("disk-" + key, 0) + 1
+    need = ["disk-spelling:%s/prog:%s" % (sp["name"], p) for sp in progs[0]["spellings"] for p in ("cell", "init")] + \
+           ["disk-mixed", "disk-mainback", "disk-diamond"]
+    missing = [k for k in need if cnt.get(k, 0) == 0]
+    if missing and not verdicts.violations:
+        vlib.tool_error("vacuity: never conforming in the disk run: %s" % ", ".join(missing))
+    # control: corrupted disk observations must be rejected
+    n_ctl = 0
+    good = [i for i in range(len(recs)) if (i + 1) not in rejects]
+    if len(good) >= 50:
+        out, want = [], {}
+        for n, i in enumerate(good[::max(1, len(good) // 10)][:10]):
+            base = (i // nsp) * nsp
+            grp = [json.loads(json.dumps(recs[j])) for j in range(base, base + nsp)]   # keep the group complete
+            x = grp[i - base]
+            if n % 2 == 0:
+                [r for r in x["reads"] if r["path"] == dcases[i]["load"][-1]][0]["n"] = 2
+                w = "file-read-twice"
+            else:
+                x["prints"] = x["prints"][:1] + x["prints"]
+                w = "prints-differ"
+            want[len(out) + (i - base) + 1] = [w]
+            out += grp
+        path = os.path.join(wd, "neg-disk.ndjson")
+        vlib.write_ndjson(path, out)
+        _, got = validate(wd, "neg-disk", path, "disk", nv, seed, len(out), "A")
+        if got != want:
+            vlib.tool_error("negative control accepted: corrupted disk observations: want %s got %s" % (want, got))
+        n_ctl = len(want)
+    return v, len(dsel), recs, fulls, dcases, rejects, cnt, n_ctl
 
 
 def vacuity(cases, recs, rejects, conforming_only):
@@ -257,9 +326,22 @@ def run(ctx):
         rp = json.load(open(ctx.replay))["replay"]
         model = rp.get("tree", "A")
         r, progs, cases = emit(wd, 1, 0, model, only=(rp["p"], rp["m"], rp["v"]), name="replay-emit")
-        tf, ff = record(wd, progs, cases, "replay")
-        fulls = vlib.read_ndjson(ff)
-        v, rejects = validate(wd, "replay", tf, "part", 1, 0, len(cases), model)
+        if rp.get("spelling"):      # a disk record: the configuration again under every spelling of the main file
+            pf, cf = os.path.join(wd, "replay-progs.ndjson"), os.path.join(wd, "replay-cases.ndjson")
+            tf, ff = os.path.join(wd, "replay-trace.ndjson"), os.path.join(wd, "replay-full.ndjson")
+            vlib.write_ndjson(pf, progs)
+            vlib.write_ndjson(cf, cases)
+            vlib.harness("c12", ["disk", pf, cf, tf, ff, os.path.join(wd, "disk")])
+            fulls = vlib.read_ndjson(ff)
+            v, rejects = validate(wd, "replay", tf, "disk", 1, 0, len(fulls), model)
+            cases = [dict(cases[0], spelling=f["spelling"]) for f in fulls]
+            for f in fulls:
+                print("main file given as %s from %s: prints=%s reads=%s asked=%s" % (
+                    f["arg"], f["cwd"], f["prints"], {r["path"]: r["n"] for r in f["reads"] if r["n"]}, f["asked"]))
+        else:
+            tf, ff = record(wd, progs, cases, "replay")
+            fulls = vlib.read_ndjson(ff)
+            v, rejects = validate(wd, "replay", tf, "part", 1, 0, len(cases), model)
         for path, text in fulls[0]["files"].items():
             print("----- %s\n%s" % (path, text))
         print("observed: %s" % json.dumps({k: fulls[0][k] for k in ("class", "error", "prints", "status")}))
@@ -294,6 +376,11 @@ def run(ctx):
         v, mrej = validate(wd, "cross-" + model, tf, "cross", nv, seed, len(mrecs), model)
         judge(mcases, mfulls, progs, mrej, verdicts)
         per_model[model] = {"progs": progs, "cases": mcases, "recs": mrecs, "rejects": mrej}
+        if model == "A":
+            dv, ndisk, drecs, dfulls, dcases, drej, dcnt, n_dctl = disk_phase(wd, progs, mcases, nv, seed, tier, verdicts)
+            states += dv.distinct
+            transitions += dv.generated
+            t_val += dv.wall_s
         for k, w in mrej.items():
             rejects[len(cases) + k] = w
         cases += mcases
@@ -330,16 +417,20 @@ def run(ctx):
            [i for i in multi if cases[i]["tree"] == "B" and cases[i]["prog"] == "shadow"
             and any(e["g"] == "geometry/math.sy" and e["st"] == "useas" for e in cases[i]["edges"])][:1]
     ev.set(states=states, transitions=transitions,
-           traces_validated_against_impl=len(recs), programs=len(recs) + ntwins, evaluations=len(recs) + ntwins,
+           traces_validated_against_impl=len(recs) + len(drecs), programs=len(recs) + ntwins + len(drecs),
+           evaluations=len(recs) + ntwins + len(drecs),
            distinct_nontrivial=distinct, configurations=len(cases), placements=nplace, negative_twins=ntwins,
            variants_per_placement=nv,
            base_programs={"%s/%s" % (p["tree"], p["name"]): {"expected_prints": p["prints"], "status": p["status"],
                                                             "placements": p["nplaces"]} for p in progs_all},
            trees={m: per_model[m]["progs"][0]["tree"] for m in per_model},
-           exercised=cnt, rejected_records=len(rejects), tlc_emit_wall_s=round(t_emit, 1), tlc_validate_wall_s=round(t_val, 1),
+           exercised=dict(cnt, **dcnt), rejected_records=len(rejects) + len(drej),
+           disk={"configurations": ndisk, "records": len(drecs), "spellings": per_model["A"]["progs"][0]["spellings"],
+                 "rejected": len(drej)}, tlc_emit_wall_s=round(t_emit, 1), tlc_validate_wall_s=round(t_val, 1),
            spec_invariants=["PathsOK", "ProgramsOK", "ConfigOK = UniqueNames /\\ RefsResolve /\\ NotImportedInvisible /\\ LoadOnce /\\ ImportsExist"],
-           negative_controls_rejected=n_a + n_b,
-           negative_controls={"corrupted_observations_rejected": n_a, "stub_visible_dropped_imports_rejected": n_b},
+           negative_controls_rejected=n_a + n_b + n_dctl,
+           negative_controls={"corrupted_observations_rejected": n_a, "stub_visible_dropped_imports_rejected": n_b,
+                              "corrupted_disk_observations_rejected": n_dctl},
            exhaustive=(tier == "thorough"),
            exhaustive_scope="all placements of every base program's globals over each 6-file tree (<= 3 files besides main.sy); "
                             "thorough: 8 of the 64 variants per placement, quick: 1 (seed-dependent)",
@@ -349,7 +440,9 @@ def run(ctx):
                 "relative or rooted or folder or bare-/ path, back-imports forming cycles, same-named decoys), index-addressed by "
                 "SyltModules!Derive; a configuration is non-trivial when it has >= 2 files and was accepted and conformed; "
                 "distinct = distinct rendered file sets" % nplace,
-           samples=[sample_of(cases[i], fulls[i]) for i in pick],
+           samples=[sample_of(cases[i], fulls[i]) for i in pick] +
+                   [dict(sample_of(dcases[j], dfulls[j]), main_file_given_as=dfulls[j]["arg"], cwd=dfulls[j]["cwd"],
+                         paths_asked_of_the_reader=dfulls[j]["asked"]) for j in (0, len(dcases) // 2)],
            known_findings_hit=verdicts.known_hits)
     ev.assume("SyltSem (TLA+) is the reference for what a base program does; minilua stands in for Lua 5.3",
               "the documented mapping: path relative to the importing file, leading / = directory of the file being run, trailing / = "
@@ -359,6 +452,8 @@ def run(ctx):
               "are std module names are never written (whether a project file shadows the std module is not documented)",
               "out of the universe: from-importing a name the other file only imported, a.x where a only from-imported x (re-export), "
               "`use /` without alias, path texts with a .sy suffix",
+              "the project root is the directory containing the file being run, however that file is spelled; on disk a read is "
+              "attributed to the canonical file, so two spellings of one file count as two reads of it",
               "import statements are written at the start or at the end of a file; twins are judged by compile result only")
     rc = verdicts.finish()
     ev.violations = len(verdicts.violations)
